@@ -10,13 +10,15 @@ from props.c15 import _tree, _coq_tree
 
 PROP = "C18"
 LEVEL = "other"
-THEOREMS = {"Properties.C18": ["C18_member_oracle", "C18_tree_checker"]}
+THEOREMS = {"Properties.C18": ["C18_member_oracle", "C18_tree_checker", "C18_unify_glb", "C18_unify_succeeds_iff", "C18_unify_order_independent"]}
 LEVEL_TEXT = ("Partial + correspondence: FCFG.contains is compared with the exact (proved) membership oracle applied to the plain grammar obtained by "
               "instantiating every feature variable with every value (instantiation done by the harness for flat atomic features over a two-value domain); "
               "feature-free FCFGs are compared with the oracle directly, epsilon productions, ambiguity and left recursion included; trees returned by "
-              "get_parse_tree are certified by the proved tree checker. Unification on structures without sharing is mirrored by a Gallina function and "
-              "compared (result paths/values, failure, symmetry); structures with shared variables are only checked for order independence. No theorem "
-              "about the Earley loop or the glb property is proved.")
+              "get_parse_tree are certified by the proved tree checker. Unification on structures without sharing is mirrored by a Gallina function, "
+              "compared (result paths/values, failure, symmetry) and PROVED, for consistently typed structures of any size, to return the least upper bound "
+              "in the subsumption order (the most general structure carrying the information of both), to fail exactly on conflicting atomic values along a "
+              "shared path and to be independent of the argument order (C18_unify_glb, C18_unify_succeeds_iff, C18_unify_order_independent); structures "
+              "with shared variables are compared with a second model and checked for order independence, without theorem. No theorem about the Earley loop.")
 LEVEL_NOTE = "Trusted: Coq kernel; Python harness incl. the instantiation of feature grammars; hand-written unification model validated by correspondence."
 RULE = ("feature-free FCFGs from random grammars (eps, ambiguity, left recursion) x words up to length 3-4 and sampled members; flat-feature FCFGs (two features, "
         "two values, agreement variables shared between head and body) x words; pairs of tree-shaped feature structures (depth <= 3, <= 3 features, <= 3 values) "
@@ -340,6 +342,14 @@ class _Ext:
             return
         if op == "unify":
             ctx.count(2)
+
+            def typed(x, y):       # hypotheses wt / ct of C18_unify_glb: no atomic value facing a complex node along a shared path
+                if isinstance(x, dict) and isinstance(y, dict):
+                    return all(typed(x[f], y[f]) for f in x if f in y)
+                if isinstance(x, dict) or isinstance(y, dict):
+                    return (y if isinstance(x, dict) else x) is None
+                return True
+            ctx.dist["unify:consistently-typed (hypotheses of C18_unify_glb hold)" if typed(case["a"], case["b"]) else "unify:atomic value facing a complex node"] += 1
             fi, vi = Interner(), Interner()
             _coq_fs(case["a"], fi, vi), _coq_fs(case["b"], fi, vi)
             for name, m in (("ab", mv[0]), ("ba", mv[1])):
